@@ -285,6 +285,20 @@ class Prov:
             recv = args[0]
             if hir.peel(recv) is not closure:
                 return self._proj(self.origins(fn, recv, ctx, stack), _projnames(proj), stack)
+        # a closure handed to a crate function that calls it (`fn with_x(.., op: impl FnOnce(A, B)) { .. op(a, b) }`):
+        # its parameters are the arguments of those calls
+        g = self.prog.resolve_local(call)
+        if g is not None and g.body is not None and not g.rec.get("gen") and self._ctx_depth(ctx) < self.max_depth:
+            pos = [i for i, a in enumerate(args) if hir.peel(a) is closure]
+            if pos and pos[0] < len(g.rec.get("params", [])):
+                lids = {b["local"] for b in hir.pat_bindings(g.rec["params"][pos[0]]["pat"])}
+                nctx = self._ctx(fn.def_path, call["id"], ctx, g.def_path)
+                out = set()
+                for n in g.nodes():
+                    if n.get("k") == "Call" and hir.local_of(n["f"]) and hir.local_of(n["f"])[0] in lids and idx < len(n["args"]):
+                        out |= self._proj(self.origins(g, n["args"][idx], nctx, stack), _projnames(proj), stack)
+                if out:
+                    return out
         return {(("closure_param", fn.def_path, closure["id"], idx), ())}
 
     def _call(self, fn, n, ctx, stack):
